@@ -456,7 +456,7 @@ impl Report {
         // own evidence files are summarised here
         if let Ok(alt) = std::env::var("JBV_ALT") {
             let mut list = Vec::new();
-            for (name, what) in [("plain", "stable toolchain, no debug assertions, wrapping arithmetic (what a downstream release build gives)"), ("simd", "nightly toolchain, cargo feature simd, no debug assertions, wrapping arithmetic")] {
+            for (name, what) in [("plain", "stable toolchain, no debug assertions, wrapping arithmetic (what a downstream release build gives)"), ("native", "as plain, compiled with -C target-cpu=native (all target features of this machine: avx, fma, ...)"), ("simd", "nightly toolchain, cargo feature simd, no debug assertions, wrapping arithmetic")] {
                 if let Ok(t) = std::fs::read_to_string(format!("{}/{}/evidence/{}.json", alt, name, self.id)) {
                     if let Ok(v) = serde_json::from_str::<Value>(&t) {
                         list.push(json!({"build": name, "configuration": what, "tier": v["tier"], "evaluations": v["coverage"]["evaluations"], "oracle_comparisons": v["coverage"]["oracle_comparisons"], "violations": v["violations"], "wall_s": v["wall_s"]}));
@@ -699,4 +699,148 @@ impl MsdLike for f64 {
             Some(*self)
         }
     }
+}
+
+// ---------------------------------------------------------------------------------------------
+// the process environment as part of the history: a standard error stream that cannot be written
+// ---------------------------------------------------------------------------------------------
+/// child `jbv child fullstderr <scenario>…`: points fd 2 at /dev/full (every write fails with ENOSPC) and runs the
+/// named scenarios, each of which makes the library take a path on which it may want to say something. Prints
+/// `<scenario> ok` / `<scenario> BAD <text>` on stdout.
+pub fn child_fullstderr(args: &[String]) -> i32 {
+    use std::io::Write;
+    unsafe {
+        let fd = libc::open(b"/dev/full\0".as_ptr() as *const libc::c_char, libc::O_WRONLY);
+        if fd < 0 {
+            println!("SKIP no /dev/full");
+            return 0;
+        }
+        libc::dup2(fd, 2);
+        libc::close(fd);
+    }
+    let corpus = crate::gen::labels::corpus();
+    let cfg = crate::gen::voice::GenCfg { nstate: 2, ..crate::gen::voice::GenCfg::default() };
+    for sc in args {
+        let r: Result<Result<(), String>, String> = catch(|| -> Result<(), String> {
+            match sc.as_str() {
+                "unknown-option" => {
+                    let mut spec = cfg.spec();
+                    spec.streams[0].options.push("FOO=1".into());
+                    spec.streams[0].options.push("BAR".into());
+                    let e = engine_from_bytes(&crate::gen::voice::write(&spec)).map_err(|e| format!("a voice with unknown option entries is rejected: {}", e))?;
+                    e.synthesize(&corpus[40..42]).map(|_| ()).map_err(|e| e.to_string())
+                }
+                "untimed-final-label" => {
+                    let mut e = engine_from_bytes(&cfg.bytes()).map_err(|e| e.to_string())?;
+                    e.condition.set_phoneme_alignment_flag(true);
+                    let lines = vec![format!("0 1000000 {}", corpus[40]), corpus[41].clone()];
+                    let w = e.synthesize(&lines[..]).map_err(|e| e.to_string())?;
+                    if w.is_empty() {
+                        return Err("empty waveform".into());
+                    }
+                    Ok(())
+                }
+                "finish-after-steps" => {
+                    let e = engine_from_bytes(&cfg.bytes()).map_err(|e| e.to_string())?;
+                    let u = &corpus[40..42];
+                    let one = e.synthesize(u).map_err(|e| e.to_string())?;
+                    let mut g = e.generator(u).map_err(|e| e.to_string())?;
+                    let fp = g.fperiod();
+                    let mut buf = vec![0.0; fp];
+                    g.generate_step(&mut buf);
+                    let rest = g.generate_all();
+                    if !bits_eq(&rest, &one[fp..]) {
+                        return Err("generate_all after one step is not the suffix of the one-shot waveform".into());
+                    }
+                    Ok(())
+                }
+                "voiceset-rejection" => {
+                    let a = std::sync::Arc::new(load_voice_bytes(&cfg.bytes()).map_err(|e| e.to_string())?);
+                    let b = std::sync::Arc::new(load_voice_bytes(&crate::gen::voice::GenCfg { rate: 8000, ..cfg.clone() }.bytes()).map_err(|e| e.to_string())?);
+                    let c = std::sync::Arc::new(load_voice_bytes(&crate::gen::voice::GenCfg { ns: 2, ..cfg.clone() }.bytes()).map_err(|e| e.to_string())?);
+                    let d = std::sync::Arc::new(load_voice_bytes(&crate::gen::voice::GenCfg { order: 5, ..cfg.clone() }.bytes()).map_err(|e| e.to_string())?);
+                    for (i, other) in [b, c, d].into_iter().enumerate() {
+                        if jbonsai::model::VoiceSet::new(vec![a.clone(), other]).is_ok() {
+                            return Err(format!("incompatible pair {} accepted", i));
+                        }
+                    }
+                    if jbonsai::model::VoiceSet::new(vec![]).is_ok() {
+                        return Err("empty voice list accepted".into());
+                    }
+                    Ok(())
+                }
+                "weights-rejection" => {
+                    let mut e = engine_from_bytes(&cfg.bytes()).map_err(|e| e.to_string())?;
+                    let iw = e.condition.get_interporation_weight_mut();
+                    if iw.set_duration(&[0.5]).is_ok() || iw.set_parameter(0, &[1.0, 0.0]).is_ok() || iw.set_gv(0, &[f64::NAN]).is_ok() {
+                        return Err("invalid weights accepted".into());
+                    }
+                    Ok(())
+                }
+                "label-error" => {
+                    let e = engine_from_bytes(&cfg.bytes()).map_err(|e| e.to_string())?;
+                    let bad = vec![format!("abc 100 {}", corpus[40])];
+                    if e.synthesize(&bad[..]).is_ok() {
+                        return Err("ill-formed line accepted".into());
+                    }
+                    let cut = vec![corpus[40].split("/K:").next().unwrap().to_string()];
+                    if e.synthesize(&cut[..]).is_ok() {
+                        return Err("ill-formed label accepted".into());
+                    }
+                    Ok(())
+                }
+                "loader-error" => {
+                    let b = cfg.bytes();
+                    for cut in [b.len() / 2, b.len() - 3, 40] {
+                        if engine_from_bytes(&b[..cut]).is_ok() {
+                            return Err(format!("voice truncated to {} bytes accepted", cut));
+                        }
+                    }
+                    Ok(())
+                }
+                _ => Err("unknown scenario".into()),
+            }
+        });
+        let line = match r {
+            Ok(Ok(())) => format!("{} ok", sc),
+            Ok(Err(e)) => format!("{} BAD {}", sc, e.replace('\n', " ")),
+            Err(p) => format!("{} BAD panic: {}", sc, p.replace('\n', " ")),
+        };
+        println!("{}", line);
+        let _ = std::io::stdout().flush();
+    }
+    0
+}
+
+/// Runs the listed scenarios in a child whose standard error cannot be written; a scenario that does not come back `ok`
+/// (a panic, a wrong result, or the child dying) is a violation `stderr-unwritable:<scenario>`.
+pub fn unwritable_stderr_part(rep: &Report, scenarios: &[&str]) {
+    use std::process::{Command, Stdio};
+    let Ok(exe) = std::env::current_exe() else { return };
+    let mut args = vec!["child".to_string(), "fullstderr".to_string()];
+    args.extend(scenarios.iter().map(|s| s.to_string()));
+    let out = match Command::new(exe).args(&args).stdout(Stdio::piped()).stderr(Stdio::null()).stdin(Stdio::null()).output() {
+        Ok(o) => o,
+        Err(e) => {
+            rep.guard(false, &format!("cannot start the unwritable-stderr child: {}", e));
+            return;
+        }
+    };
+    let text = String::from_utf8_lossy(&out.stdout).to_string();
+    if text.starts_with("SKIP") {
+        rep.note("unwritable_stderr", json!("skipped: no /dev/full on this system"));
+        return;
+    }
+    for sc in scenarios {
+        rep.eval(1);
+        rep.cmp(1);
+        let line = text.lines().find(|l| l.starts_with(&format!("{} ", sc)));
+        let rp = json!({"environment": "standard error points at /dev/full (every write fails)", "scenario": sc});
+        match line {
+            Some(l) if l.ends_with(" ok") => {}
+            Some(l) => rep.violation(format!("stderr-unwritable:{}", sc), format!("with a standard error stream that cannot be written: {}", l), rp),
+            None => rep.violation(format!("stderr-unwritable:{}", sc), format!("with a standard error stream that cannot be written the process died in or before scenario {} (exit {:?})", sc, out.status.code()), rp),
+        }
+    }
+    rep.note("unwritable_stderr", json!({"scenarios": scenarios}));
 }
